@@ -47,6 +47,8 @@ TREES = [
     "x = {**a, b: c, **d}\ny = [{**e}]",
     "def f(*, p, q=d): pass\nl = lambda *, r, s=t: r",
     "def g(a, /, b=1, *c, d, e=2, **k):\n    return [a, {1: b, **k}]",
+    # scopes inside the first iterable of a comprehension (evaluated in the enclosing scope)
+    "def h():\n    return [i for i in [j for j in k] if (lambda: i)]\nz = {a: b for a in (c for c in d)}",
 ]
 for _t in TREES:
     ast.parse(_t)
@@ -66,7 +68,8 @@ SETTINGS = [
 TARGETS = ('cur', 'parent', 'grand', 'prev', 'next', 'walked', 'future')
 OPS = ('replace', 'remove', 'replace-big')
 ACTIONS = [('send', False), ('send', True)] + [(op, t) for t in TARGETS for op in OPS] + \
-    [('insert-before', 'cur'), ('insert-after', 'cur'), ('replace-slice', 'cur'), ('replace', 'cur-child')]
+    [('insert-before', 'cur'), ('insert-after', 'cur'), ('replace-slice', 'cur'), ('replace', 'cur-child'), ('replace-scope', 'cur'),
+     ('replace-scope', 'next')]
 ACTIONS_LITE = [('send', False), ('send', True), ('replace', 'cur'), ('remove', 'cur'), ('replace-big', 'cur'), ('remove', 'parent'),
                 ('replace', 'parent'), ('remove', 'next'), ('remove', 'prev'), ('replace', 'walked'), ('remove', 'future'),
                 ('insert-before', 'cur')]
@@ -310,8 +313,10 @@ def do_action(fst, root, g, item, act, yielded, default, Dkeys, st, allv, resent
         if kind == 'remove':
             t.remove(norm=True)
             return True
-        if kind in ('replace', 'replace-big'):
+        if kind in ('replace', 'replace-big', 'replace-scope'):
             code = code_for(t, kind == 'replace-big')
+            if kind == 'replace-scope':  # the new node opens a scope of its own (matters to scope walks)
+                code = '[n1 for n1 in n2 if n3]' if isinstance(t.a, ast.expr) and isinstance(getattr(t.a, 'ctx', ast.Load()), ast.Load) else None
             if code is None:
                 return None
             new = t.replace(code, norm=True)
